@@ -588,6 +588,8 @@ func main() {
 			}
 		}
 	}
+	// the shape of the starting transaction's outputs: 0 / 1 / 2 / 5 data outputs in every position (datashapes.go)
+	dataShapeFamily(r, thorough)
 	for k := 0; k < n; k++ {
 		q := feegen.Quotes[r.Intn(len(feegen.Quotes))]
 		s := startTx(r, r.Intn(6), q)
@@ -639,6 +641,6 @@ func main() {
 		}
 		fundCase(kind, s, q, hist, hyp)
 	}
-	c.Stats.Rule = "exhaustive supplier histories of length 0..4 (thorough 0..6) over the response kinds {empty batch, one under-funding UTXO, one over-funding UTXO, 2..3 UTXOs, ErrNoUTXO (wrapped), other error} (thorough: again to length 4 with a batch carrying a 31/33/0-byte txid in the middle as a seventh kind), each with a start transaction (no inputs / a small unsigned input / nothing at all / already covered / data output and a signed input / three payments) and a quote (9 quotes: 1/20..50 sat/byte, unequal std/data) in rotation; UTXO values scale with the cost of an input at the quote; plus a history of 131 calls (thorough: also 200 and 300) with one small UTXO each (covered only near the end), six histories of large batches (the input count crossing 252/253 inside a batch, between batches, and by a batch of 260), random histories of length 0..6 adding zero-value UTXOs, nil / non-P2PKH / inscription locking scripts, bad txids and a UTXO worth the exact deficit +-1, missing fee type, zero denominator, nil previous script in the start transaction, outputs near 2^64, and (one random history in four, every second draft) a UTXO that carries the outpoint of a prior input / is returned twice in its batch / again in the next batch. A used-up history answers ErrNoUTXO. The starting transaction of every case is OBTAINED by one of 17 routes in rotation (struct literals with nil / empty-but-present unlocking scripts, From, FromUTXOs with one script pointer per address, decoded from bytes / hex / a stream / the extended format / JSON / node JSON with the spent scripts and values filled in afterwards, Clone, signed and cleared by re-slicing / a fresh empty script / nil, equal scripts shared as one pointer, slices with spare capacity, a shallow copy / clone of a clone; a route that cannot express the spec falls back to literals and is tallied), and 10 drafts (thorough 120) with 2..4 prior inputs (unsigned and signed mixed, coins of one address, an inscription coin, inputs lacking 1 satoshi or half the fee of the unlocking scripts still to come) are funded once per route with the same quote and history: verdict, deficits handed to the supplier and the transaction left behind must agree across routes. Besides the predicates over the library's own estimate, the deficit at every call, at the start and on success is computed from the plain description of the transaction (every input without unlocking script counted with 107 bytes). distinct = distinct (route, start tx, quote, consumed part of the history); non-trivial = the supplier was called at least once"
+	c.Stats.Rule = "exhaustive supplier histories of length 0..4 (thorough 0..6) over the response kinds {empty batch, one under-funding UTXO, one over-funding UTXO, 2..3 UTXOs, ErrNoUTXO (wrapped), other error} (thorough: again to length 4 with a batch carrying a 31/33/0-byte txid in the middle as a seventh kind), each with a start transaction (no inputs / a small unsigned input / nothing at all / already covered / data output and a signed input / three payments) and a quote (9 quotes: 1/20..50 sat/byte, unequal std/data) in rotation; UTXO values scale with the cost of an input at the quote; plus a history of 131 calls (thorough: also 200 and 300) with one small UTXO each (covered only near the end), six histories of large batches (the input count crossing 252/253 inside a batch, between batches, and by a batch of 260), random histories of length 0..6 adding zero-value UTXOs, nil / non-P2PKH / inscription locking scripts, bad txids and a UTXO worth the exact deficit +-1, missing fee type, zero denominator, nil previous script in the start transaction, outputs near 2^64, and (one random history in four, every second draft) a UTXO that carries the outpoint of a prior input / is returned twice in its batch / again in the next batch. A used-up history answers ErrNoUTXO. The starting transaction of every case is OBTAINED by one of 17 routes in rotation (struct literals with nil / empty-but-present unlocking scripts, From, FromUTXOs with one script pointer per address, decoded from bytes / hex / a stream / the extended format / JSON / node JSON with the spent scripts and values filled in afterwards, Clone, signed and cleared by re-slicing / a fresh empty script / nil, equal scripts shared as one pointer, slices with spare capacity, a shallow copy / clone of a clone; a route that cannot express the spec falls back to literals and is tallied), and 10 drafts (thorough 120) with 2..4 prior inputs (unsigned and signed mixed, coins of one address, an inscription coin, inputs lacking 1 satoshi or half the fee of the unlocking scripts still to come) are funded once per route with the same quote and history: verdict, deficits handed to the supplier and the transaction left behind must agree across routes. The SHAPE of the starting transaction's outputs (datashapes.go): 27 layouts with 0 / 1 / 2 / 5 data outputs first, last, adjacent, interleaved with payments, all-data transactions worth nothing, data outputs carrying satoshis and look-alike outputs that are not data (a pushed 6a, OP_RETURN in second place, ...), each with four kinds of payload (a push of 100..400 bytes of pairwise different lengths; any tail of feegen.DataShapes - pushes cut short, half length fields, bare opcodes, nothing; the bare marker / a push of nothing; 260+ bytes growing with the position, thorough 1000+ per position), of both forms OP_RETURN / OP_FALSE OP_RETURN, with 0 / an unsigned / a signed prior input, funded under a quote whose data rate is cheaper (down to free) and one whose data rate is dearer (up to the only thing charged) than the standard rate, with histories built around one UTXO worth EXACTLY what is lacking once it is an input (exact: one call; exact-1 then more: a second call with deficit 1; exact-1 then exhaustion; an under-funding coin then exactly the rest; an empty batch then exact+1; two coins then exactly the rest) and every third time a random history too (thorough: six rounds, and every tail of feegen.DataShapes walked through the second and the last data output). Besides the predicates over the library's own estimate, the deficit at every call, at the start and on success is computed from the plain description of the transaction (every input without unlocking script counted with 107 bytes). distinct = distinct (route, start tx, quote, consumed part of the history); non-trivial = the supplier was called at least once"
 	c.Finish()
 }
